@@ -190,7 +190,7 @@ def queue_level(ck, cfgs, fuzz_seeds, meta=True):
             if not vlib.enabled(r, *act):
                 raise vlib.Infra(f"vacuity: {act[0]} never enabled for {label}")
         behs = vlib.behaviours(r)
-        lim = 8000 if quick else 60000
+        lim = 8000 if quick else 35000
         if len(behs) > lim:
             behs = random.Random(ck.seed).sample(behs, lim)
         ck.traces_validated += replay_behaviours(ck, exe, behs, c, label)
@@ -203,7 +203,7 @@ def queue_level(ck, cfgs, fuzz_seeds, meta=True):
 
 def run(ck):
     quick = ck.tier == "quick"
-    queue_level(ck, configs(quick), 10 if quick else 100)
+    queue_level(ck, configs(quick), 10 if quick else 70)
 
 
 def replay(ck, path):
